@@ -93,6 +93,46 @@ Definition intends (cmd : command) (b : bytes) : Prop :=
   | _ => False
   end.
 
+(* ------------------------------------------------------------------ hypotheses on the world *)
+(* regular files have proper names (no trailing slash) and none is a stale temporary of a
+   layerconfig rewrite *)
+Definition files_ok (f : fsT) : bool :=
+  forallb (fun en => match snd en with
+                     | File _ => ends_ok (fst en) && negb (beq (pathbase (fst en)) LCT)
+                     | _ => true end) f.
+(* the layerconfig of a layer directory is not a symbolic link *)
+Definition lc_regular (c : cfgT) (f : fsT) : bool :=
+  forallb (fun n => negb (is_symlink f (pathjoin [layer_path c n; LCF]))) (children f (c_layers c)).
+(* `add` from a configuration file: the file is one the property knows (a file directly in
+   the base directory, e.g. the skeleton, or a layerconfig) *)
+Definition add_basis_ok (c : cfgT) (f : fsT) (cf : bytes) : bool :=
+  match default_layerinfo c f cf with
+  | None => true
+  | Some lf => existsb (fun o => list_beq nmount_beq (lf_mounts (read_layerfile o)) (lf_mounts lf)
+                                 && list_beq nmount_beq (lf_exports (read_layerfile o)) (lf_exports lf)) (olds c f)
+  end.
+Definition cmd_ok (c : cfgT) (f : fsT) (cmd : command) : bool :=
+  match cmd with
+  | CRename _ n => negb (beq n LCF)
+  | CAdd _ base cf => if negb (beq cf []) || beq base [] then add_basis_ok c f cf else true
+  | _ => true
+  end.
+Definition wf_world (c : cfgT) (f : fsT) (cmd : command) : bool :=
+  files_ok f && lc_regular c f && cmd_ok c f cmd.
+
+Lemma stat_nolink fs p : (forall t, fs_get fs p <> Some (Link t)) -> stat fs p = fs_get fs p.
+Proof.
+  intros H. unfold stat. generalize 8%nat. intros n.
+  destruct n; cbn [stat_fuel]; destruct (fs_get fs p) as [[|x|t]|] eqn:E; try reflexivity; exfalso; eapply H; eauto.
+Qed.
+
+Lemma default_layerinfo_read c f cf lf : default_layerinfo c f cf = Some lf -> exists content, lf = read_layerfile content.
+Proof.
+  unfold default_layerinfo. cbv zeta.
+  match goal with |- match ?x with _ => _ end = _ -> _ => destruct x as [content|] end; [|discriminate].
+  destruct (lf_errors (read_layerfile content)); [|discriminate]. intros H. injection H as <-. now exists content.
+Qed.
+
 Section Inv.
 Variable c : cfgT.
 Variable f0 : fsT.
@@ -384,4 +424,361 @@ Proof.
   destruct (l_state l <? st_mounted)%N; [apply p_mount_layer|apply (p_ret J Sf)].
 Qed.
 
+
+(* ------------------------------------------------------------------ harmless file names *)
+Lemma Phi_join2 d n y : plain n -> n <> LCF -> n <> LCT -> Phi (pathjoin [d; n]) y.
+Proof.
+  intros Hn H1 H2. destruct (pathjoin2_shape d n Hn) as (pre & -> & Hpre).
+  destruct Hn as (Hne & _ & _ & Hs). now apply Phi_other.
+Qed.
+
+Lemma has_dot_LCT : In (nb 46) LCT.
+Proof. vm_compute. tauto. Qed.
+Lemma legal_not_special n : legal_name n = true -> n <> LCT.
+Proof. intros Hl ->. apply (legal_nodot _ Hl). exact has_dot_LCT. Qed.
+
+Lemma rev_removed : rev D_RemovedLayerSuffix = nb 100 :: rev (bs "~remove").
+Proof. reflexivity. Qed.
+Lemma removed_not_special n : n ++ D_RemovedLayerSuffix <> LCF /\ n ++ D_RemovedLayerSuffix <> LCT.
+Proof.
+  split; intros H; apply (f_equal (@rev _)) in H; rewrite rev_app_distr, rev_removed in H;
+    vm_compute in H; discriminate H.
+Qed.
+Lemma removed_noslash : noslash D_RemovedLayerSuffix.
+Proof. apply nosepb_spec. reflexivity. Qed.
+
+Lemma Phi_removed d n y : legal_name n = true -> n <> [] -> Phi (pathjoin [d; n] ++ D_RemovedLayerSuffix) y.
+Proof.
+  intros Hl Hne. pose proof (legal_plain n Hl Hne) as Hp.
+  destruct (pathjoin2_shape d n Hp) as (pre & -> & Hpre). rewrite <- app_assoc.
+  destruct (removed_not_special n) as [H1 H2]. destruct Hp as (_ & _ & _ & Hs).
+  apply Phi_other; auto.
+  - destruct n; [congruence|discriminate].
+  - now apply nosep_app; [|apply removed_noslash].
+Qed.
+
+(* ------------------------------------------------------------------ init *)
+Lemma p_init_base : pres J Sf (init_base e c).
+Proof.
+  unfold init_base. apply (p_bind J Sf); [apply (p_get_fs J Sf)|]. intros f. cbv zeta.
+  apply (p_bind J Sf); [pj|]. intros u.
+  apply (p_bind J Sf); [apply (p_mapM J Sf); intros d _; apply p_fs_mkdir|]. intros u1.
+  apply (p_bind J Sf).
+  - apply (p_mapM J Sf). intros pc Hpc. apply filter_In in Hpc as [Hpc _].
+    apply p_fs_write_text. intros y.
+    destruct Hpc as [<-|[<-|[]]]; cbn [fst]; apply Phi_join2;
+      try (apply plainb_spec; reflexivity); intros H; apply (f_equal (@length _)) in H; vm_compute in H; discriminate.
+  - intros u2. pj.
+Qed.
+
+(* ------------------------------------------------------------------ layers as loaded *)
+Definition Lok (l : layer) : Prop :=
+  l_path l = layer_path c (l_name l)
+  /\ lf_wf (l_base l) (l_mounts l) (l_exports l) = true
+  /\ exists o, In o (olds c f0) /\ lf_mounts (read_layerfile o) = l_mounts l
+               /\ lf_exports (read_layerfile o) = l_exports l /\ lf_base (read_layerfile o) = l_base l.
+Definition ML (ld : ldefs) : Prop := Forall Lok (ld_map ld).
+
+Lemma Lok_static l l' : static l = static l' -> Lok l -> Lok l'.
+Proof.
+  intros H. unfold Lok. rewrite (static_name _ _ H), (static_base _ _ H), (static_mounts _ _ H),
+    (static_exports _ _ H), (static_path _ _ H). auto.
+Qed.
+Lemma Forall_Lok_static m : forall m', map static m = map static m' -> Forall Lok m' -> Forall Lok m.
+Proof.
+  induction m as [|x r IH]; intros [|x' r'] H HF; cbn in H; try discriminate; [constructor|].
+  assert (Hx : static x = static x') by congruence. assert (Hr : map static r = map static r') by congruence.
+  inversion HF; subst. constructor; [eapply Lok_static; [symmetry; exact Hx|assumption]|eapply IH; eauto].
+Qed.
+
+Lemma lf_wf_parts b ms es : lf_wf b ms es = true <->
+  base_ok b = true /\ forallb nm_ok_import ms = true /\ forallb nm_ok_export es = true.
+Proof. unfold lf_wf. rewrite !andb_true_iff. tauto. Qed.
+
+Lemma p_write_layerfile l : lf_wf (l_base l) (l_mounts l) (l_exports l) = true ->
+  from_old (l_base l) (l_mounts l) (l_exports l) -> pres J Sf (write_layerfile e l).
+Proof.
+  intros Hwf Hold. unfold write_layerfile, layerconfig_path.
+  destruct (pathjoin2_shape (l_path l) LCF LCF_plain) as (pre & E & Hpre).
+  change D_LayerconfigFile with LCF. rewrite E. apply wfa_J; [exact Hpre|now apply good_rewrite].
+Qed.
+
+Lemma test_name_need m n : test_name m n NNeed = true -> n <> [] /\ legal_name n = true.
+Proof.
+  unfold test_name. destruct n; [discriminate|]. intros H. apply andb_true_iff in H as [H _]. split; [discriminate|exact H].
+Qed.
+Lemma test_name_free m n : test_name m n NFree = true -> n <> [] /\ legal_name n = true.
+Proof.
+  unfold test_name. destruct n; [discriminate|]. intros H. apply andb_true_iff in H as [H _]. split; [discriminate|exact H].
+Qed.
+Lemma test_name_opt m n : test_name m n NOptNeed = true -> base_ok n = true.
+Proof.
+  unfold test_name. destruct n as [|ch r]; [reflexivity|]. intros H. apply andb_true_iff in H as [H _].
+  apply base_ok_tok. apply legal_tok; [exact H|discriminate].
+Qed.
+
+Lemma p_renormalize ld : pres J Sf (renormalize ld).
+Proof. unfold renormalize. pj. Qed.
+
+Lemma ML_get ld n l : ML ld -> lm_get (ld_map ld) n = Some l -> Lok l /\ l_name l = n.
+Proof.
+  intros H E. destruct (lm_get_in _ _ _ E) as [Hin Hn]. split; [|exact Hn].
+  unfold ML in H. rewrite Forall_forall in H. now apply H.
+Qed.
+
+(* ------------------------------------------------------------------ rebase *)
+Lemma p_rebase ld name newbase : ML ld -> cmd = CRebase name newbase ->
+  pres J Sf (rebase_layer e c ld name newbase).
+Proof.
+  intros HML Hcmd. unfold rebase_layer. apply (p_guard_then J Sf JE). intros G1.
+  apply andb_true_iff in G1 as [_ G1]. apply test_name_opt in G1.
+  destruct (lm_get (ld_map ld) name) as [l|] eqn:El; [|apply (p_panic J Sf JE)].
+  destruct (ML_get _ _ _ HML El) as [(Hp & Hwf & o & Ho & Hm & Hx & Hb) Hn].
+  apply (p_bind J Sf); [apply (p_guard J Sf JE)|]. intros u1.
+  apply (p_bind J Sf); [apply (p_guard J Sf JE)|]. intros u2. cbv zeta.
+  apply (p_bind J Sf); [apply (p_guard J Sf JE)|]. intros u3.
+  apply (p_bind J Sf); [apply (p_guard J Sf JE)|]. intros u4.
+  apply (p_bind J Sf); [apply p_renormalize|]. intros ld'.
+  apply (p_bind J Sf); [|intros u5; apply (p_ret J Sf)].
+  apply p_write_layerfile; cbn [set_base l_base l_mounts l_exports].
+  - apply lf_wf_parts in Hwf as (_ & H2 & H3). apply lf_wf_parts. auto.
+  - exists o. repeat split; auto. right. rewrite Hcmd. reflexivity.
+Qed.
+
+(* ------------------------------------------------------------------ rename *)
+Lemma kids_in m name k : In k (children_in_order e m name) -> In k m.
+Proof.
+  unfold children_in_order. intros H. apply in_app_or in H as [H|H].
+  - apply in_flat_map in H as (n & _ & H). destruct (lm_get (filter _ m) n) as [l|] eqn:E; [|contradiction].
+    destruct H as [<-|[]]. apply lm_get_in in E as [E _]. now apply filter_In in E as [E _].
+  - apply filter_In in H as [H _]. now apply filter_In in H as [H _].
+Qed.
+
+Lemma p_rename ld oldname newname : ML ld -> cmd = CRename oldname newname -> newname <> LCF ->
+  pres J Sf (rename_layer e c ld oldname newname).
+Proof.
+  intros HML Hcmd Hnew. unfold rename_layer. apply (p_guard_then J Sf JE). intros G1.
+  apply andb_true_iff in G1 as [_ G1]. apply test_name_free in G1 as [Hne Hleg].
+  destruct (lm_get (ld_map ld) oldname) as [l|] eqn:El; [|apply (p_panic J Sf JE)].
+  destruct (ML_get _ _ _ HML El) as [(Hp & Hwf & o & Ho & Hm & Hx & Hb) Hn].
+  apply (p_bind J Sf); [apply (p_guard J Sf JE)|]. intros u1.
+  apply (p_bind J Sf); [apply (p_guard J Sf JE)|]. intros u2. cbv zeta.
+  apply (p_bind J Sf); [apply (p_guard J Sf JE)|]. intros u3.
+  apply (p_bind J Sf); [apply p_remove_export_links|]. intros u4.
+  apply (p_bind J Sf).
+  { apply p_rename_op. intros y. unfold layer_path. apply Phi_join2;
+      [now apply legal_plain|exact Hnew|now apply legal_not_special]. }
+  intros u5. apply (p_bind J Sf).
+  { apply (p_mapM J Sf). intros k Hk. apply kids_in in Hk.
+    unfold ML in HML. rewrite Forall_forall in HML. destruct (HML k Hk) as (_ & Hkwf & ok & Hok & Hkm & Hkx & _).
+    apply p_write_layerfile; cbn [set_base l_base l_mounts l_exports].
+    - apply lf_wf_parts in Hkwf as (_ & H2 & H3). apply lf_wf_parts. repeat split; auto.
+      apply base_ok_tok. now apply legal_tok.
+    - exists ok. repeat split; auto. right. rewrite Hcmd. reflexivity. }
+  intros u6. apply (p_bind J Sf); [apply p_renormalize|]. intros ld'.
+  apply (p_bind J Sf); [|intros u7; apply (p_ret J Sf)].
+  apply p_write_layerfile; cbn [set_name_path l_base l_mounts l_exports]; [exact Hwf|].
+  exists o. repeat split; auto.
+Qed.
+
+(* ------------------------------------------------------------------ remove *)
+Lemma p_remove ld name files : ML ld -> pres J Sf (remove_layer e c ld name files).
+Proof.
+  intros HML. unfold remove_layer. apply (p_guard_then J Sf JE). intros G1.
+  apply test_name_need in G1 as [Hne Hleg].
+  destruct (lm_get (ld_map ld) name) as [l|] eqn:El; [|apply (p_panic J Sf JE)].
+  destruct (ML_get _ _ _ HML El) as [(Hp & _) Hn].
+  apply (p_bind J Sf); [apply (p_guard J Sf JE)|]. intros u1.
+  apply (p_bind J Sf); [apply (p_guard J Sf JE)|]. intros u2.
+  apply (p_bind J Sf); [apply (p_guard J Sf JE)|]. intros u3.
+  apply (p_bind J Sf); [apply p_remove_export_links|]. intros u4.
+  apply (p_bind J Sf); [apply (p_get_fs J Sf)|]. intros f.
+  apply (p_bind J Sf); [|intros u5; apply p_renormalize].
+  destruct (files || pristine_tree c f l); [apply p_fs_remove|]. cbv zeta.
+  destruct (exists_ f (l_path l ++ D_RemovedLayerSuffix)); [apply (p_fail J Sf JE)|].
+  apply p_rename_op. intros y. rewrite Hp, Hn. unfold layer_path. now apply Phi_removed.
+Qed.
+
+
+(* ------------------------------------------------------------------ add *)
+Lemma P0_J : J f0 -> forall g, g = f0 -> J g.
+Proof. intros H g ->. exact H. Qed.
+Lemma P0_Sf : J f0 -> forall g, g = f0 -> Sf g.
+Proof. intros H g ->. now apply JE. Qed.
+
+Lemma p_add ld name base cf : J f0 -> ML ld -> cmd = CAdd name base cf -> cmd_ok c f0 cmd = true ->
+  hoare (fun g => g = f0) (add_layer e c ld name base cf) (fun _ => J) Sf.
+Proof.
+  intros HJ0 HML Hcmd Hok. unfold add_layer.
+  apply h_guard_then; [now apply P0_Sf|]. intros G1. apply andb_true_iff in G1 as [Gn Gb].
+  apply test_name_free in Gn as [Hne Hleg]. apply test_name_opt in Gb.
+  apply h_guard_then; [now apply P0_Sf|]. intros G2.
+  apply h_get_fs_eq. cbv zeta.
+  match goal with |- hoare _ (match ?x with _ => _ end) _ _ => destruct x as [[ms es]|] eqn:EB end;
+    [|apply h_fail; now apply P0_Sf].
+  assert (K : lf_wf base ms es = true /\ from_old base ms es).
+  { rewrite Hcmd in Hok. cbn [cmd_ok] in Hok.
+    destruct (negb (beq cf []) || beq base []).
+    - destruct (default_layerinfo c f0 cf) as [lf|] eqn:ED; [|discriminate]. injection EB as <- <-.
+      destruct (default_layerinfo_read _ _ _ _ ED) as (content & ->).
+      destruct (read_layerfile_wf content) as (_ & W2 & W3).
+      split; [apply lf_wf_parts; auto|].
+      unfold add_basis_ok in Hok. rewrite ED in Hok. apply existsb_exists in Hok as (o & Ho & Hq).
+      apply andb_true_iff in Hq as [Hq1 Hq2].
+      apply (list_beq_true nmount_beq nmount_beq_true) in Hq1, Hq2.
+      exists o. repeat split; auto. right. rewrite Hcmd. reflexivity.
+    - destruct base as [|b0 br]; [discriminate|].
+      destruct (lm_get (ld_map ld) (b0 :: br)) as [pl|] eqn:EP; [|discriminate]. injection EB as <- <-.
+      destruct (ML_get _ _ _ HML EP) as [(_ & Hwf & o & Ho & Hm & Hx & _) _].
+      apply lf_wf_parts in Hwf as (_ & W2 & W3). split; [apply lf_wf_parts; auto|].
+      exists o. repeat split; auto. right. rewrite Hcmd. reflexivity. }
+  destruct K as [Kwf Kold].
+  eapply h_pre; [|apply (P0_J HJ0)].
+  apply (p_bind J Sf); [apply p_fs_mkdir|]. intros u1.
+  apply (p_bind J Sf); [apply p_write_layerfile; assumption|]. intros u2.
+  apply (p_bind J Sf); [apply p_fs_mkdir|]. intros u3.
+  apply (p_bind J Sf); [|intros u4; apply p_renormalize].
+  destruct base.
+  - apply (p_bind J Sf); [apply p_fs_mkdir|]. intros u5.
+    apply p_fs_write_text. intros y. apply Phi_join2; [apply plainb_spec; reflexivity| |];
+      intros H; apply (f_equal (@length _)) in H; vm_compute in H; discriminate.
+  - apply (p_bind J Sf); [apply p_fs_mkdir|]. intros u5. apply p_fs_mkdir.
+Qed.
+
+(* ------------------------------------------------------------------ loading *)
+Lemma load_Lok n l : is_symlink f0 (pathjoin [layer_path c n; LCF]) = false -> load_layer c f0 n = Some l -> Lok l.
+Proof.
+  intros Hs. unfold load_layer. change D_LayerconfigFile with LCF.
+  set (P := pathjoin [layer_path c n; LCF]) in *.
+  destruct (is_file f0 P); [|discriminate]. destruct (read_file f0 P) as [content|] eqn:ER; [|discriminate].
+  intros H. injection H as <-. unfold Lok. cbn [l_path l_name l_base l_mounts l_exports].
+  split; [reflexivity|]. destruct (read_layerfile_wf content) as (W1 & W2 & W3).
+  split; [apply lf_wf_parts; auto|]. exists content. split; [|auto].
+  apply (in_olds c f0 P).
+  - unfold read_file in ER. rewrite stat_nolink in ER.
+    + destruct (fs_get f0 P) as [[|x|t]|] eqn:EG; try discriminate. injection ER as ->. now apply fs_get_in.
+    + intros t Ht. unfold is_symlink, lstat in Hs. rewrite Ht in Hs. discriminate.
+  - unfold P. destruct (pathjoin2_shape (layer_path c n) LCF LCF_plain) as (pre & -> & Hpre).
+    apply pathbase_comp; [apply LCF_nonempty|apply LCF_noslash|exact Hpre].
+Qed.
+
+Lemma loaded_Lok : lc_regular c f0 = true -> Forall Lok (read_layer_files c f0).
+Proof.
+  intros H. unfold read_layer_files. unfold lc_regular in H. rewrite forallb_forall in H.
+  assert (K : forall n, In n (Lex.sort (children f0 (c_layers c))) ->
+                        is_symlink f0 (pathjoin [layer_path c n; LCF]) = false).
+  { intros n Hn. apply (proj1 (sort_in _ _)) in Hn. apply H in Hn. now apply negb_true_iff in Hn. }
+  revert K. generalize (Lex.sort (children f0 (c_layers c))). intros names.
+  induction names as [|n r IH]; intros K; cbn [fold_right]; [constructor|].
+  assert (IH' : Forall Lok (fold_right (fun n acc => if legal_name n then match load_layer c f0 n with Some l => l :: acc | None => acc end else acc) [] r)).
+  { apply IH. intros m Hm. apply K. now right. }
+  destruct (legal_name n); [|exact IH'].
+  destruct (load_layer c f0 n) as [l|] eqn:EL; [|exact IH'].
+  constructor; [|exact IH']. eapply load_Lok; [apply K; now left|exact EL].
+Qed.
+
+(* ------------------------------------------------------------------ one invocation *)
+Lemma run_command_J um : J f0 -> Forall Lok (read_layer_files c f0) -> cmd_ok c f0 cmd = true ->
+  hoare (fun g => g = f0) (run_command e c um cmd) (fun _ => J) Sf.
+Proof.
+  intros HJ0 HL Hok. remember cmd as cm eqn:Ecm in |- *.
+  assert (Gen : forall (body : ldefs -> M ldefs),
+    (forall ld, ML ld -> hoare (fun g => g = f0) (body ld) (fun _ => J) Sf) ->
+    hoare (fun g => g = f0)
+      (f <- get_fs ;; guard (base_set_up c f) ;;; ld <- get_layers c um ;; ld' <- body ld ;; ret (Some ld'))
+      (fun _ => J) Sf).
+  { intros body Hbody. apply h_get_fs_eq. apply h_guard_then; [now apply P0_Sf|]. intros _.
+    eapply h_bind; [eapply h_conseq; [apply (get_layers_spec c um f0)| | |]|].
+    - auto.
+    - intros ld g Hq. exact Hq.
+    - intros g ->. now apply P0_Sf.
+    - intros ld. cbn beta. apply h_pure. intros Est.
+      assert (HML : ML ld) by (eapply Forall_Lok_static; eauto).
+      eapply h_bind; [apply (Hbody ld HML)|]. intros ld'. apply (p_ret J Sf). }
+  assert (PJ : forall A (m : M A), pres J Sf m -> hoare (fun g => g = f0) m (fun _ => J) Sf).
+  { intros A m Hm. eapply h_pre; [exact Hm|apply (P0_J HJ0)]. }
+  destruct cm; unfold run_command.
+  - apply PJ. apply (p_bind J Sf); [apply p_init_base|intros u; apply (p_ret J Sf)].
+  - apply Gen. intros ld HML. apply p_add; auto.
+  - apply Gen. intros ld HML. apply PJ. now apply p_remove.
+  - apply Gen. intros ld HML. apply PJ. apply p_rename; auto.
+    rewrite <- Ecm in Hok. cbn [cmd_ok] in Hok. apply negb_true_iff in Hok. now apply beq_false in Hok.
+  - apply Gen. intros ld HML. apply PJ. now apply p_rebase.
+  - apply Gen. intros ld HML. apply PJ. apply p_makedirs.
+  - apply Gen. intros ld HML. apply PJ. apply p_mount_layer.
+  - apply Gen. intros ld HML. apply PJ. apply p_unmount.
+  - apply Gen. intros ld HML. apply PJ. apply p_shake.
+  - apply Gen. intros ld HML. apply PJ. apply p_chroot.
+  - apply Gen. intros ld HML. apply PJ. apply (p_ret J Sf).
+  - apply PJ. apply (p_bind J Sf); [now apply p_apply_op|intros u; apply (p_ret J Sf)].
+  - apply PJ. apply (p_bind J Sf); [now apply p_apply_op|intros u; apply (p_ret J Sf)].
+Qed.
+
 End Inv.
+
+(* ------------------------------------------------------------------ the property's conjuncts *)
+Definition conj1 (c : cfgT) (w : wobs) (v : sview) : bool :=
+  forallb (fun e => match snd e with
+                    | File x => if beq (pathbase (fst e)) D_LayerconfigFile && under (c_layers c) (fst e)
+                                then C11.complete_version c (wo_fs w) (v_cmd v) (fst e) x else true
+                    | _ => true end) (wo_fs (v_after v)).
+Definition conj2 (c : cfgT) (w : wobs) (v : sview) : bool :=
+  let f := wo_fs w in let f' := wo_fs (v_after v) in
+  match v_res v, e_fault (v_env v) with
+  | ROk, NoFault =>
+    forallb (fun x =>
+      if (l_state x =? st_error)%N then true else
+      let newname := match v_cmd v with CRename a n => if beq a (l_name x) then n else l_name x | _ => l_name x end in
+      match v_cmd v with
+      | CRemove a _ => true
+      | _ =>
+        match layer_named c f' newname with
+        | None => false
+        | Some y =>
+          list_beq nmount_beq (l_mounts x) (l_mounts y) && list_beq nmount_beq (l_exports x) (l_exports y)
+          && beq (l_base y)
+                 (match v_cmd v with
+                  | CRename a n => if beq (l_base x) a then n else l_base x
+                  | CRebase a b0 => if beq a (l_name x) then b0 else l_base x
+                  | _ => l_base x end)
+        end
+      end) (layers_on_disk c f)
+  | _, _ => true
+  end.
+Lemma step_spec_eq c w v :
+  C11.step_spec c w v = if e_pretend (v_env v) then true else conj1 c w v && conj2 c w v.
+Proof. reflexivity. Qed.
+
+Lemma files_ok_J c f cmd : files_ok f = true -> J c f cmd f.
+Proof.
+  intros H q y Hq. unfold files_ok in H. rewrite forallb_forall in H. specialize (H _ Hq). cbn [fst snd] in H.
+  apply andb_true_iff in H as [H1 H2]. apply negb_true_iff in H2. apply beq_false in H2.
+  split; [exact H1|]. split; [exact H2|]. intros Hb. apply good_old. eapply in_olds; eauto.
+Qed.
+
+Lemma view_of_model_fields c w e cmd um :
+  v_cmd (view_of_model c w e cmd um) = cmd /\ v_env (view_of_model c w e cmd um) = e
+  /\ wo_fs (v_after (view_of_model c w e cmd um)) = fs_of (snd (run e c um cmd (world_of w)))
+  /\ v_res (view_of_model c w e cmd um) = rclass_of (fst (run e c um cmd (world_of w))).
+Proof. unfold view_of_model. destruct (run e c um cmd (world_of w)) as [o st]. cbn. auto. Qed.
+
+(* every layerconfig below the layers directory is a complete version after any prefix of the
+   command's operations: whatever the fault plan (none, failure at k, crash at k) *)
+Theorem crash_atomic_gen c w e cmd um : e_pretend e = false -> wf_world c (wo_fs w) cmd = true ->
+  conj1 c w (view_of_model c w e cmd um) = true.
+Proof.
+  intros Hp Hwf. unfold wf_world in Hwf. apply andb_true_iff in Hwf as [Hwf H3]. apply andb_true_iff in Hwf as [H1 H2].
+  set (f0 := wo_fs w) in *.
+  pose proof (files_ok_J c f0 cmd H1) as HJ0.
+  pose proof (loaded_Lok c f0 H2) as HL.
+  pose proof (run_command_J c f0 cmd e Hp um HJ0 HL H3 (MkSt (world_of w) 0 []) eq_refl) as HR.
+  destruct (view_of_model_fields c w e cmd um) as (E1 & _ & E3 & _).
+  unfold conj1. rewrite E1, E3. unfold run. fold f0.
+  assert (HS : Sf c f0 cmd (fs_of (snd (run_command e c um cmd (MkSt (world_of w) 0 []))))).
+  { destruct (run_command e c um cmd (MkSt (world_of w) 0 [])) as [[a| | | |] st]; cbn [snd]; try exact HR.
+    now apply J_Sf. }
+  apply forallb_forall. intros [q n] Hq. cbn [fst snd]. destruct n as [|x|t]; try reflexivity.
+  destruct (beq (pathbase q) D_LayerconfigFile) eqn:Eb; [|reflexivity]. apply beq_true in Eb.
+  destruct (under (c_layers c) q); [|reflexivity]. cbn [andb].
+  apply (HS q x Hq Eb).
+Qed.
